@@ -220,7 +220,8 @@ def run_pipeline(name, binp, opsfile, workdir, tag, timeout=3000):
     env = dict(os.environ)
     env.setdefault('GOMEMLIMIT', '8GiB')
     env['VERIF_HARNESS'] = name
-    env['VERIF_WORKDIR'] = workdir
+    env['VERIF_WORKDIR'] = os.path.join(workdir, tag + '.work')   # runs of several seeds go on in parallel
+    os.makedirs(env['VERIF_WORKDIR'], exist_ok=True)
     if st.get('race'):
         rl = os.path.join(workdir, f'{tag}.racelog')
         for old in glob.glob(rl + '.*'):
